@@ -17,11 +17,16 @@ def run(ctx):
     if ctx.tier == "quick":
         dscommon.run_family(ctx, "C02Order", fmt="text", variant=shuffled, always_nontrivial=True)
         dscommon.run_family(ctx, "C02Repeat", fmt="auto", always_nontrivial=True)
+        # the same coordinates written as date + hour columns, rows grouped by run and rows shuffled
+        dscommon.run_family(ctx, "C02Order", fmt="text", variant={"time_format": "datehour"}, limit=150, always_nontrivial=True)
+        dscommon.run_family(ctx, "C02Order", fmt="text", variant={"time_format": "datehour", "row_order": "shuffle", "rng": rng}, limit=150, always_nontrivial=True)
         dscommon.run_family(ctx, "C02Sel", fmt="netcdf", limit=300, always_nontrivial=True)
         dscommon.run_family(ctx, "C02Three", fmt="text", limit=200, always_nontrivial=True)
     else:
         dscommon.run_family(ctx, "C02Order", fmt="text", variant=shuffled, always_nontrivial=True)
         dscommon.run_family(ctx, "C02Order", fmt="netcdf", always_nontrivial=True)
+        dscommon.run_family(ctx, "C02Order", fmt="text", variant={"time_format": "datehour"}, always_nontrivial=True)
+        dscommon.run_family(ctx, "C02Order", fmt="text", variant={"time_format": "datehour", "row_order": "shuffle", "rng": rng}, always_nontrivial=True)
         dscommon.run_family(ctx, "C02Repeat", fmt="auto", always_nontrivial=True)
         dscommon.run_family(ctx, "C02Sel", fmt="netcdf", always_nontrivial=True)
         dscommon.run_family(ctx, "C02Sel", fmt="text", variant=shuffled, always_nontrivial=True)
